@@ -21,7 +21,18 @@ func (m *Map[K, V]) ToJSON() ([]byte, error) {
 
 // FromJSON populates the map from the input JSON representation.
 func (m *Map[K, V]) FromJSON(data []byte) error {
-	return json.Unmarshal(data, &m.m)
+	// decode into a temporary: the input replaces the content (no merge), a failed decode leaves
+	// the map untouched, and null leaves an empty, usable map
+	elements := make(map[K]V)
+	err := json.Unmarshal(data, &elements)
+	if err != nil {
+		return err
+	}
+	if elements == nil {
+		elements = make(map[K]V)
+	}
+	m.m = elements
+	return nil
 }
 
 // UnmarshalJSON @implements json.Unmarshaler
